@@ -240,6 +240,8 @@ func writerLayoutDeep(fn *ssa.Function) []layoutItem {
 // readerLayout collects the fixed-position reads of fn from byte buffers together with the
 // struct field (or local name) each result is stored into.
 func readerLayout(fn *ssa.Function) []layoutItem {
+	shiftOf := map[ssa.Value]int64{} // read value -> left shift (bits) applied before it is stored
+	truncated := map[ssa.Value]bool{}
 	dest := func(v ssa.Value) string {
 		// follow conversions and single-use arithmetic to the store
 		seen := map[ssa.Value]bool{}
@@ -266,6 +268,27 @@ func readerLayout(fn *ssa.Function) []layoutItem {
 						return s
 					}
 				case *ssa.BinOp:
+					if y.Op == token.SHL && y.X == x {
+						if k, isK := model.ConstInt(y.Y); isK {
+							shiftOf[v] = k
+							// shifted in a type too narrow to hold the byte at its new position
+							// (uint32(b[7]<<24): the shift happens in uint8 and yields 0)
+							if bt, isB := y.Type().Underlying().(*types.Basic); isB {
+								w := int64(64)
+								switch bt.Kind() {
+								case types.Uint8, types.Int8:
+									w = 8
+								case types.Uint16, types.Int16:
+									w = 16
+								case types.Uint32, types.Int32:
+									w = 32
+								}
+								if k+8 > w {
+									truncated[v] = true
+								}
+							}
+						}
+					}
 					if s := rec(y, d+1); s != "" {
 						return s
 					}
@@ -301,10 +324,80 @@ func readerLayout(fn *ssa.Function) []layoutItem {
 			if b == nil {
 				b = sbase
 			}
-			out = append(out, layoutItem{Field: dest(x), Buf: buf, Base: b, Off: k + soff, Width: 1, In: in})
+			fld := dest(x)
+			if truncated[x] {
+				fld += "(bits shifted out of an 8-bit value)"
+			}
+			out = append(out, layoutItem{Field: fld, Buf: buf, Base: b, Off: k + soff, Width: 1, In: in})
 		}
 	})
-	return out
+	return mergeByteReads(out, shiftOf)
+}
+
+// mergeByteReads: single-byte reads that are shifted into place and stored into one field
+// (uint32(b[1])<<16 | uint32(b[2])<<8 | uint32(b[3])) are the multi-byte read they spell:
+// consecutive offsets with shifts falling by 8 are one big-endian item, rising by 8 one
+// little-endian item.
+func mergeByteReads(items []layoutItem, shiftOf map[ssa.Value]int64) []layoutItem {
+	type key struct {
+		field string
+		buf   ssa.Value
+		base  ssa.Value
+	}
+	groups := map[key][]int{}
+	for i, it := range items {
+		if it.Width != 1 || it.Field == "" {
+			continue
+		}
+		v, ok := it.In.(ssa.Value)
+		if !ok {
+			continue
+		}
+		if _, shifted := shiftOf[v]; !shifted {
+			// an unshifted byte takes part only when a shifted sibling exists
+		}
+		groups[key{it.Field, it.Buf, it.Base}] = append(groups[key{it.Field, it.Buf, it.Base}], i)
+	}
+	drop := map[int]bool{}
+	var merged []layoutItem
+	for _, idxs := range groups {
+		if len(idxs) < 2 {
+			continue
+		}
+		sort.Slice(idxs, func(a, b int) bool { return items[idxs[a]].Off < items[idxs[b]].Off })
+		sh := func(i int) int64 { return shiftOf[items[i].In.(ssa.Value)] }
+		for a := 0; a < len(idxs); {
+			b := a
+			dir := int64(0)
+			for b+1 < len(idxs) && items[idxs[b+1]].Off == items[idxs[b]].Off+1 {
+				step := sh(idxs[b+1]) - sh(idxs[b])
+				if (step != 8 && step != -8) || (dir != 0 && step != dir) {
+					break
+				}
+				dir = step
+				b++
+			}
+			if b > a && ((dir == -8 && sh(idxs[b]) == 0) || (dir == 8 && sh(idxs[a]) == 0)) {
+				first := items[idxs[a]]
+				e := "be"
+				if dir == 8 {
+					e = "le"
+				}
+				merged = append(merged, layoutItem{Field: first.Field, Buf: first.Buf, Base: first.Base, Off: first.Off, Width: b - a + 1, Endian: e, In: first.In})
+				for k := a; k <= b; k++ {
+					drop[idxs[k]] = true
+				}
+			}
+			a = b + 1
+		}
+	}
+	var out []layoutItem
+	for i, it := range items {
+		if !drop[i] {
+			out = append(out, it)
+		}
+	}
+	return append(out, merged...)
 }
 
 func layoutString(items []layoutItem) string {
